@@ -257,7 +257,35 @@ func ruleKeyEncoders(r *Run) {
 		}
 		gk, okk := gates(key)
 		ga, oka := gates(as)
-		if uses(key) && uses(as) {
+		// ... and neither adds a condition of its own inside the enumeration callback: what the key
+		// hashes is what the label set reports
+		unconditional := func(f *ssa.Function) bool {
+			for _, a := range f.AnonFuncs {
+				var ev ssa.Instruction
+				allInstrs(a, func(in ssa.Instruction) {
+					switch x := in.(type) {
+					case *ssa.MapUpdate:
+						ev = x
+					case *ssa.Call:
+						if callee := staticCallee(x); callee != nil && strings.Contains(pkgPathOf(callee), "xxhash") && callee.Name() == "WriteString" && ev == nil {
+							ev = x
+						}
+					}
+				})
+				if ev == nil {
+					continue
+				}
+				for _, ret := range returnsOf(a) {
+					if !instrDominates(ev, ret) {
+						return false
+					}
+				}
+			}
+			return true
+		}
+		if uses(key) && uses(as) && (!unconditional(key) || !unconditional(as)) {
+			o.Fail(r.pos(as.Pos()), "Key or AsLokiAPI skips some of the enumerated labels by a condition of its own: two label sets with different keys can report the same labels (or the reverse)")
+		} else if uses(key) && uses(as) {
 			o.OK("both call a.forEach").At(r.pos(key.Pos()))
 		} else if okk && oka && gk == ga {
 			o.OK("both range over a.entries gated by %s(e.name)", gk).At(r.pos(key.Pos()))
